@@ -19,7 +19,7 @@ class Artefacts:
         self.rejected = 0
 
 
-def collect(ctx, n_corpus=(100, None), gen_modules=(("Gen_C02.tla", 10),), extra_programs=(), gen_kind="stmt"):
+def collect(ctx, n_corpus=(100, None), gen_modules=(("Gen_C02.tla", 10),), extra_programs=(), gen_kind="stmt", keep=None):
     """n_corpus: (quick sample size, thorough: None = everything); gen_modules: (module, keep every k-th in quick)"""
     art = Artefacts()
     cp = corpus_tv.Corpus()
@@ -46,6 +46,8 @@ def collect(ctx, n_corpus=(100, None), gen_modules=(("Gen_C02.tla", 10),), extra
             ps = ps["programs"]
         progs.extend(ps)
     progs = [p for p in progs if not (gen_kind == "insn" and p["id"].startswith("ex-") and p["id"].split("-")[-1] in ("P10", "P31"))]
+    if keep:
+        progs = [p for p in progs if keep(p)]
     for p in progs:
         p.setdefault("kind", gen_kind)
     if progs:
